@@ -1,0 +1,8 @@
+//go:build verif
+
+// Contracts for the deductive verifier under /verif (comment-only; never compiled into oxy).
+package trace
+
+//@ type Tracer
+//@   immutable errHandler next reqHeaders respHeaders log
+//@   sink writer
